@@ -11,7 +11,8 @@ dump and the directory listing, independently of the Coq model):
   * plain check() changes nothing (table dump, Settings counters, directory listing, file contents);
   * plain check() reports exactly the oracle's inconsistencies, as (kind, relative path);
   * check(fix=True) reports all of them too; anything else it reports is a directory emptied by its own removals;
-  * a second check() reports nothing   (known finding `empty_parent_after_fix`, D16);
+  * a second check() reports nothing   (D16, fixed in 63db292; the former witness -- a stray file in d/zz/yy/junk -- is replayed
+    on every run and reported with sig `empty_parent_after_fix` if the defect ever returns);
   * every remaining item reads back; undamaged items read back equal, their rows and files are untouched;
     an item whose file was deleted is gone.
 CORRESPONDENCE: the damaged state (rows, counters, tree) is encoded into model/Check.v; `check1` /
@@ -568,7 +569,8 @@ def all_cases(ctx, thorough):
 
 
 def witness_d16():
-    """Finding C17-F1: a stray file two levels down; the repair removes it and its directory, the second check reports the parent."""
+    """Regression witness of D16 (fixed): a stray file two levels down.  check(fix=True) must remove it together with
+    the directories this empties, so that the second check() is empty.  Returns (ok, first, second)."""
     d = tempfile.mkdtemp(prefix='c17wit-')
     try:
         c = diskcache.Cache(os.path.join(d, 'c'), disk_min_file_size=MIN_FILE)
@@ -577,12 +579,24 @@ def witness_d16():
         os.makedirs(p)
         with open(os.path.join(p, 'junk'), 'wb') as f:
             f.write(b'x')
-        first = [str(w.message) for w in run_check(c, True)]
-        second = [str(w.message) for w in run_check(c, False)]
+        first = [str(w.message).replace(d, 'd') for w in run_check(c, True)]
+        second = [str(w.message).replace(d, 'd') for w in run_check(c, False)]
+        left = os.path.exists(os.path.join(d, 'c', 'zz'))
+        ok = c['k'] == b'v' * 40
         c.close()
-        return len(first) == 2 and second == ['empty directory: %s' % os.path.join(d, 'c', 'zz')]
+        return (not second and not left and ok), first, second
     finally:
         shutil.rmtree(d, ignore_errors=True)
+
+
+def check_witness(res):
+    ok, first, second = witness_d16()
+    res.count(['witness', 'd16'], nontrivial=True)
+    if not ok:
+        res.violations.append(fw.Violation(
+            'empty_parent_after_fix', "Cache(d/c); c['k'] = b'v'*40; create d/c/zz/yy/junk; check(fix=True) reported %r; the second check() "
+            'reports %r (must be empty: the repair has to remove the parents it leaves empty)' % (first, second),
+            {'check': 'witness_d16', 'first': first, 'second': second}))
 
 
 def run(ctx, big=False, model=True):
@@ -594,6 +608,7 @@ def run(ctx, big=False, model=True):
                 'empty set, the full set, every single kind (both placements, both cache kinds) and a seeded sample of 70 subsets.  Per case: plain '
                 'check, check(fix=True), second check, all items read.  non-trivial = at least one damage kind; distinct = distinct (cache kind, '
                 'subset, placement).')
+    check_witness(res)          # first, so that a regression of D16 is reported with this witness
     tmpl = {k: build_template(ctx, k) for k in ('cache', 'fanout')}
     cases = all_cases(ctx, thorough)
     recs = []
@@ -633,7 +648,6 @@ def run(ctx, big=False, model=True):
                       'warnings_of_fixing_run_by_kind': hist_warn, 'cases_showing_empty_parent_after_fix': n_d16,
                       'cache_kinds': {'cache': sum(1 for c in cases if c[0] == 'cache'), 'fanout': sum(1 for c in cases if c[0] == 'fanout')},
                       'exhaustive': bool(thorough)})
-    res.witnessed['empty_parent_after_fix'] = witness_d16()
     return res
 
 
@@ -643,6 +657,10 @@ def search(ctx, broken):
 
 def replay(payload):
     case = payload.get('case', {})
+    if case.get('check') == 'witness_d16':
+        ok, first, second = witness_d16()
+        print('check(fix=True): %r\nsecond check(): %r' % (first, second))
+        return ok
     d = tempfile.mkdtemp(prefix='c17r-')
     try:
         class C:
